@@ -83,6 +83,9 @@ class Net(torch.nn.Module):
         self.pool = torch.nn.MaxPool1d(2)
         self.tanh = torch.nn.Tanh()
         self.lin = torch.nn.Linear(3, 2)
+        # the same activation instance is also reachable through a second parent, so
+        # Module.apply visits it twice (hook registration must be idempotent)
+        self.head = torch.nn.Sequential(self.tanh)
         self.fail_at = None      # raise inside the k-th forward call
         self.calls = 0
 
@@ -90,7 +93,7 @@ class Net(torch.nn.Module):
         self.calls += 1
         if self.fail_at is not None and self.calls == self.fail_at:
             raise Injected('forward %d' % self.calls)
-        h = self.tanh(self.pool(self.drop(self.relu(self.bn(self.conv(X))))))
+        h = self.head(self.pool(self.drop(self.relu(self.bn(self.conv(X))))))
         y = self.lin(h.sum(dim=-1))
         if a is not None:
             y = y + a
@@ -103,7 +106,14 @@ def make_model(train_mode):
     with torch.no_grad():
         m.bn.running_mean.copy_(torch.tensor([0.1, -0.2, 0.3]))
         m.bn.running_var.copy_(torch.tensor([1.5, 0.7, 1.1]))
-    m.train(train_mode)
+    if train_mode == 'mixed':
+        # root (and most layers) in eval mode, batch-norm and dropout switched back to training:
+        # a call must still run every forward pass in evaluation mode
+        m.eval()
+        m.bn.train()
+        m.drop.train()
+    else:
+        m.train(bool(train_mode))
     return m
 
 
@@ -241,13 +251,14 @@ def hook_count(model):
 def behaviour(model):
     """outputs and ordinary gradients in eval mode on a probe input (deterministic)"""
     m = model
-    was = m.training
+    was = {id(x): x.training for x in m.modules()}
     m.eval()
     fa, m.fail_at = m.fail_at, None
     x = onehot(['ACGTACGT', 'TTGACCAG']).requires_grad_()
     y = m(x)
     g = torch.autograd.grad(y.sum(), [x] + [p for p in m.parameters()])
-    m.train(was)
+    for x in m.modules():
+        x.training = was[id(x)]
     m.fail_at = fa
     return [y.detach().clone()] + [t.detach().clone() for t in g]
 
@@ -288,7 +299,7 @@ def run_impl(inp):
 
     model = make_model(inp.get('train', False))
     pristine = copy.deepcopy(model)
-    key = bool(inp.get('train', False))
+    key = str(inp.get('train', False))
     if key not in _B0:
         _B0[key] = behaviour(copy.deepcopy(pristine))
     b0 = _B0[key]
@@ -442,7 +453,7 @@ def generate(tier, rng):
     # ---- exceptions inside callees
     for name in list(drivers()):
         for k in range(1, 4 if quick else 12):
-            yield {'kind': 'forward', 'fn': name, 'k': k, 'train': k % 2 == 0}
+            yield {'kind': 'forward', 'fn': name, 'k': k, 'train': [True, False, 'mixed'][k % 3]}
     for k in range(1, 5):
         yield {'kind': 'reference', 'fn': 'deep_lift_shap', 'k': k, 'variant': {'bs': 3}}
         yield {'kind': 'bhook', 'fn': 'deep_lift_shap', 'k': k, 'variant': {'bs': 1}}
@@ -450,13 +461,17 @@ def generate(tier, rng):
     for inv in ({'invalid': 'N'}, {'invalid': 'args_len'}, {'target': 7}, {'target': -9}):
         for bs in (1, 3):
             yield {'kind': 'invalid', 'fn': 'deep_lift_shap', 'variant': dict(inv, bs=bs), 'train': True}
+    # ---- plain completed calls from each mode (k beyond the number of forward calls: no crash)
+    for name in list(drivers()):
+        for mode in (True, False, 'mixed'):
+            yield {'kind': 'forward', 'fn': name, 'k': 10 ** 6, 'train': mode}
     # ---- histories on a shared model vs fresh copies
     names = list(drivers())
     nh = 12 if quick else 120
     for _ in range(nh):
         calls = [rng.choice(names) for _i in range(rng.randint(2, 4))]
         variant = rng.choice([None, {'invalid': 'N'}, {'target': 7}, {'bs': 1}])
-        yield {'kind': 'history', 'calls': calls, 'variant': variant, 'train': rng.random() < 0.5}
+        yield {'kind': 'history', 'calls': calls, 'variant': variant, 'train': rng.choice([True, False, 'mixed'])}
 
 
 def shrink(inp):
